@@ -100,6 +100,25 @@ def native_check(seed=0, quick=True):
             n += 1
             if f:
                 fails.append(({"kind": kind, "observable": "mean 1e7, spread < 1", "num_samples": 1000, "num_chains": 37, "system": system}, f[:2]))
+        # a user-defined observable whose local estimator is a derivative taken with autograd (d/dv of the sum of the
+        # effective energies, say): alone and in a System
+        from qucumber.observables import ObservableBase
+
+        class Slope(ObservableBase):
+            def apply(self, nn_state, samples):
+                v = samples.clone().requires_grad_(True)
+                e = (v * v).sum() + v.sum(1).pow(3).sum()
+                (g,) = torch.autograd.grad(e, v)
+                return g.sum(1).detach()
+        if kind != "mixed":
+            for system in (False, True):
+                try:
+                    f = one_case([Slope(), SigmaZ()] if system else [Slope()], st, 9, 4, 1, 1, system=system)
+                except RuntimeError as e:
+                    f = ["an observable that differentiates with autograd cannot be evaluated: %s" % e]
+                n += 1
+                if f:
+                    fails.append(({"kind": kind, "observable": "estimator computed with torch.autograd.grad", "system": system}, f[:2]))
         for ow in (False, True):
             init = torch.tensor(rng.integers(0, 2, size=(4, 3)), dtype=torch.double)
             f = one_case([SigmaZ()], st, 10, 7, 2, 1, init=init, overwrite=ow)
